@@ -148,6 +148,13 @@ func (cx *Ctx) handlerScope() map[*ssa.Function]bool {
 	for _, r := range cx.routes() {
 		cx.W.refClosure(r.Handler, m)
 	}
+	// code that runs per request but is wired up when the router is built: the interceptor chain, the
+	// probe closures, and the issuer closures the exported factories return
+	for _, k := range []string{"provider.CreateRouter", "provider.issuerFromForwardedOrHost$1$1", "provider.StaticIssuer$1$1"} {
+		if f := cx.W.Func(k); f != nil {
+			cx.W.refClosure(f, m)
+		}
+	}
 	// methods of module values handed out as interfaces (AttributeSetter)
 	vf := cx.newVFlowFns(m)
 	cx.hscope = vf.scope
